@@ -162,6 +162,34 @@ fn big_zone_case(seed: u64) -> CfmCase {
     CfmCase { spec, cut_selectors: sel }
 }
 
+/// One-segment body in which the azimuths listed in `at` carry `count` zones each (all others none).
+#[derive(Clone, Debug, Serialize, Deserialize)]
+pub struct ZoneCountCase {
+    pub count: u32,
+    pub at: Vec<u16>,
+}
+
+pub fn zone_count_spec(c: &ZoneCountCase) -> CfmSpec {
+    let mut seg: Vec<Vec<(u16, u16)>> = vec![Vec::new(); 360];
+    for a in &c.at {
+        seg[*a as usize % 360] = (0..c.count.min(65_535)).map(|i| (((i + *a as u32) % 3) as u16, (i as u16).wrapping_mul(7).wrapping_add(*a))).collect();
+    }
+    CfmSpec { date: 20_000, minutes: 61, segments: vec![seg] }
+}
+
+pub fn check_zone_count(c: &ZoneCountCase) -> Check {
+    let spec = zone_count_spec(c);
+    check_structure(&spec)?;
+    let body = spec.encode();
+    // a proper prefix is an error: one byte short, one zone short, and cut right after the last zone count
+    for cut in [body.len() - 1, body.len().saturating_sub(4), body.len().saturating_sub(4 * c.count as usize).max(1)] {
+        if cut < body.len() {
+            check_prefix(&body, cut)?;
+        }
+    }
+    Ok(())
+}
+
 pub fn run(ctx: &Ctx, rep: &mut Report) {
     rep.trust("independent wire encoder: 3-halfword header, per azimuth a zone count followed by (op code, end range) pairs");
     rep.assume("segment numbers must be consecutive; the first may be 0 or 1 (the statement fixes order, not base)");
@@ -185,6 +213,74 @@ pub fn run(ctx: &Ctx, rep: &mut Report) {
         }
         rep.enumerated("fixed-shapes", "seeded bodies with S = 0, 1, 2, 5, 255 segments and one body whose azimuths carry up to 65535 zones, each with its truncation sweep", cuts, cuts, false);
         rep.sample("fixed-shapes", json!({"segments": 255}));
+    }
+
+    // zone-count sweep (length-dependent decoding paths): quick = every power of two and every multiple of 1024
+    // with its neighbours (-1, +0, +1) plus 0..=300, in the first / a middle / the last azimuth; thorough = every
+    // count 0..=65535 in the last azimuth
+    {
+        let mut cases: Vec<ZoneCountCase> = Vec::new();
+        let mut counts: Vec<u32> = (0..=300).collect();
+        for j in 0..16u32 {
+            for d in [-1i64, 0, 1] {
+                counts.push(((1i64 << j) + d).clamp(0, 65_535) as u32);
+            }
+        }
+        for k in 1..64u32 {
+            for d in [-1i64, 0, 1] {
+                counts.push((k as i64 * 1024 + d).clamp(0, 65_535) as u32);
+            }
+        }
+        counts.push(65_535);
+        counts.push(65_534);
+        counts.sort_unstable();
+        counts.dedup();
+        for (i, c) in counts.iter().enumerate() {
+            let at = match i % 4 {
+                0 => vec![359],
+                1 => vec![0],
+                2 => vec![200, 359],
+                _ => vec![0, 1, 358],
+            };
+            cases.push(ZoneCountCase { count: *c, at });
+        }
+        if ctx.tier == crate::runner::Tier::Thorough {
+            for c in 0..=65_535u32 {
+                cases.push(ZoneCountCase { count: c, at: vec![359] });
+            }
+        }
+        let n = cases.len() as u64;
+        let fails = std::sync::Mutex::new(Vec::new());
+        let next = std::sync::atomic::AtomicUsize::new(0);
+        std::thread::scope(|sc| {
+            for _ in 0..ctx.threads.max(1) {
+                sc.spawn(|| loop {
+                    let i = next.fetch_add(1, std::sync::atomic::Ordering::Relaxed);
+                    if i >= cases.len() {
+                        break;
+                    }
+                    let c = &cases[i];
+                    let r = crate::runner::guard(|| check_zone_count(c)).unwrap_or_else(|p| Err(Fail::new("panic:oracle-or-code", p)));
+                    if let Err(f) = r {
+                        fails.lock().unwrap_or_else(|e| e.into_inner()).push((i, f));
+                    }
+                });
+            }
+        });
+        let mut fails = fails.into_inner().unwrap_or_else(|e| e.into_inner());
+        fails.sort_by_key(|x| x.0);
+        for (i, f) in fails {
+            rep.record_failure("zone-count-sweep", f, json!(cases[i]));
+        }
+        let exhaustive = ctx.tier == crate::runner::Tier::Thorough;
+        rep.enumerated(
+            "zone-count-sweep",
+            "one-segment bodies whose first / middle / last azimuths declare c zones: quick c in 0..=300, every 2^j and every multiple of 1024 with neighbours -1/+0/+1, 65534, 65535; thorough additionally EVERY c in 0..=65535 in the last azimuth; structure comparison plus three proper prefixes; non-trivial = c > 25 (beyond the ICD maximum)",
+            n,
+            cases.iter().filter(|c| c.count > 25).count() as u64,
+            exhaustive,
+        );
+        rep.sample("zone-count-sweep", json!({"count": 1024, "at": [359]}));
     }
 
     let big = ctx.tier == crate::runner::Tier::Thorough;
@@ -213,6 +309,7 @@ pub fn run(ctx: &Ctx, rep: &mut Report) {
 
 pub fn replay(sub: &str, case: &Value) -> Check {
     match sub {
+        "zone-count-sweep" => check_zone_count(&from_case::<ZoneCountCase>(case)?),
         "bodies-and-truncations" => check_case(&from_case::<CfmCase>(case)?),
         other => super::unknown_sub(other),
     }
